@@ -17,8 +17,8 @@ prop("C02", "c02",
      "specificity, first rule in rule-set order whose condition holds, backtracking only if enabled for the failed "
      "expression). A case is non-trivial when >=2 expressions match the path or a failing condition forces a "
      "backtracking decision; distinct by (rule sets, method, path).",
-     [dict(run="^TestRepositoryMatchesModel$", quick=4000, thorough=96000, shards_thorough=8),
-      dict(run="^TestTreeMatchesModel$", quick=20000, thorough=320000, shards_thorough=6),
+     [dict(run="^TestRepositoryMatchesModel$", quick=4000, thorough=384000, shards_thorough=8),
+      dict(run="^TestTreeMatchesModel$", quick=20000, thorough=1280000, shards_thorough=6),
       dict(run="^TestTreeExhaustiveSmall$", quick=1, thorough=1, shards_thorough=1)],
      ["glob/regex libraries and net/url parsing are trusted", "conditions are method conditions only (path_params are C03)"],
      level="Randomised generated search (rule sets x load orders x paths) against an independent reference matcher plus "
@@ -109,7 +109,7 @@ prop("C14", "c14",
      "a request failing the rule's own conditions in front of a less specific always-matching rule (effective backtracking). "
      "Non-trivial: a stage is inherited, the rule is expected to be rejected, or backtracking is set without default rule.",
      [dict(run="^TestStagewiseInheritanceExhaustive$", quick=1, thorough=1, shards_thorough=1),
-      dict(run="^TestOrderingsAndMalformedRules$", quick=4000, thorough=300000, shards_thorough=8)],
+      dict(run="^TestOrderingsAndMalformedRules$", quick=4000, thorough=600000, shards_thorough=8)],
      ["rule sets whose execute list is empty are rejected by rule-set validation before the factory and are not generated"],
      level="Complete enumeration of the stage-inheritance configuration space plus randomised search over orderings and "
            "malformed references, observed behaviourally through the trace of executed probe mechanisms on the assembled service.",
@@ -315,7 +315,7 @@ prop("C07", "c07",
      "whose lookup results and applicability of changes come from fresh, unscheduled repositories; deadlock (all threads "
      "blocked), panics and data-race reports are violations. Non-trivial: a context switch while an update is in flight; "
      "distinct by (schedule trace hash, program).",
-     [dict(run="^TestScheduledHistoriesAreLinearizable$", quick=300, thorough=7500, shards_thorough=12, instrument=True),
+     [dict(run="^TestScheduledHistoriesAreLinearizable$", quick=300, thorough=15000, shards_thorough=12, instrument=True),
       dict(run="^TestParallelHistoriesAreLinearizable$", quick=1, thorough=1, shards_thorough=2, race=True)],
      ["yield granularity is the statement of the instrumented files; everything else is atomic in engine A",
       "engine B depends on real scheduling and is not reproducible from the seed; the recorded history is the artefact"],
